@@ -812,6 +812,7 @@ def r19_11(ctx):
     from .. import cfg as cfgmod
     ctx.rule("R19.11", "each stream is redirected under its own switch: in _enable_redirect_io of Live and Progress the statement that installs the proxy for sys.stdout (resp. sys.stderr) and the one that saves the original are dominated by the fact `self._redirect_stdout` (resp. `self._redirect_stderr`) - the sibling implementations agree; a block guarded by the other stream's flag leaves stderr unredirected when only it was asked for (its lines bypass the console) and redirects it when it was not")
     n = 0
+    n_wrap = [0]
     for spec in ("live:Live", "progress:Progress"):
         f = ctx.repo.cls(spec).method("_enable_redirect_io")
         if f is None:
@@ -837,7 +838,15 @@ def r19_11(ctx):
             ok = (want, True) in facts
             ctx.check(ok, f.fq, short(nd.stmt), f"{m.relpath}:{nd.lineno}", f"{stream} handled under `{want}`",
                       f"`{short(nd.stmt)}` handles sys.{stream} but is not guarded by `{want}`" + (f" (it is guarded by `{other}`)" if (other, True) in facts else "") + f": with redirect_{stream}=True and the other flag off, what is written to {stream} during the live display goes straight to the terminal instead of being printed through the console above the frame")
+            # the proxy installed for a stream forwards to THAT stream's original file (Console.file unwraps the proxy to find where
+            # the console itself must write): a proxy for stderr built around stdout sends a stderr console's frames to stdout
+            if norm(t) in ("sys.stdout", "sys.stderr") and isinstance(v, ast.Call) and norm(v.func).endswith("FileProxy"):
+                wrapped = v.args[1] if len(v.args) > 1 else next((k.value for k in v.keywords if k.arg == "file"), None)
+                n_wrap[0] += 1
+                ctx.check(wrapped is not None and norm(wrapped) == norm(t), f.fq, short(nd.stmt), f"{m.relpath}:{nd.lineno}", f"the proxy for {stream} wraps the original sys.{stream}",
+                          f"`{short(nd.stmt)}` installs for sys.{stream} a proxy around `{norm(wrapped) if wrapped is not None else None}`: Console.file unwraps the proxy (rich_proxied_file) to find the real stream, so a console on sys.{stream} writes its frames, erase codes and prints to the other stream while the cursor codes written before the redirect went to this one - the display is torn between two streams")
     ctx.floor(n, 4, "stream save / install statements in _enable_redirect_io")
+    ctx.floor(n_wrap[0], 4, "proxies installed in _enable_redirect_io")
 
 
 def r19_12(ctx):
